@@ -271,6 +271,9 @@ func runC06(c *Ctx, w *World, r *Report) {
 			if call.Common().StaticCallee() == fns["pbcmpl.newHeader"] {
 				nh = call
 			}
+			if isHeaderOwnMarshal(call, fns["pbcmpl.newHeader"]) {
+				hdrCall = call
+			}
 			if strings.HasSuffix(calleeName(call.Common()), "proto.Marshal") {
 				a := call.Common().Args[0]
 				if a == ssa.Value(fn.Params[0]) {
@@ -649,6 +652,20 @@ func runC06(c *Ctx, w *World, r *Report) {
 	ReportCount(w, r, "pbcmpl.ReadHeader", 0, isParamStream(fns["pbcmpl.ReadHeader"], 0))
 }
 
+// isHeaderOwnMarshal: newHeader(..).Marshal(), the header's own encoder (the method proto.Marshal dispatches to for a
+// Header) called directly on the freshly built header.
+func isHeaderOwnMarshal(call *ssa.Call, newHeader *ssa.Function) bool {
+	callee := call.Common().StaticCallee()
+	if callee == nil || newHeader == nil || callee.Name() != "Marshal" || callee.Signature.Recv() == nil || callee.Pkg != newHeader.Pkg {
+		return false
+	}
+	if len(call.Common().Args) != 1 {
+		return false
+	}
+	nhc, ok := call.Common().Args[0].(*ssa.Call)
+	return ok && nhc.Common().StaticCallee() == newHeader
+}
+
 // dropMissingHelpers: unexported helpers are anchors of convenience, not API: when one is gone (inlined into its
 // caller by a maintainer) the rules read the caller instead, and its absence is not an undecided anchor.
 func dropMissingHelpers(w *World, names []string, helpers ...string) []string {
@@ -682,6 +699,9 @@ func reportDeclInMarshal(w *World, r *Report, fns map[string]*ssa.Function, pk *
 		}
 		if call.Common().StaticCallee() == fns["pbcmpl.newHeader"] {
 			nh = call
+		}
+		if isHeaderOwnMarshal(call, fns["pbcmpl.newHeader"]) {
+			hdrCall = call
 		}
 		if strings.HasSuffix(calleeName(call.Common()), "proto.Marshal") {
 			a := call.Common().Args[0]
